@@ -164,7 +164,7 @@ def _distinguished(gm, f, var, src, methods):
     # class clone: cxx_class built from a per-instantiation suffix
     if (src or "").startswith("cls"):
         s = gm.seg(f)
-        if "class_suffix" in s and re.search(r"cxx_class\s*=\s*\"\{\}\{\}\"\.format\(\s*newcls\.fmtdict\.cxx_class,\s*class_suffix", s):
+        if "class_suffix" in s and pat.has(f, "cxx_class = '{}{}'.format(newcls.fmtdict.cxx_class, class_suffix)"):
             branches = [n for n in ast.walk(f) if isinstance(n, ast.Assign) and pyflow.is_name(n.targets[0], "class_suffix")]
             if len(branches) >= 4:
                 return "cxx_class = cxx_class + class_suffix (%d suffix sources)" % len(branches)
@@ -289,8 +289,15 @@ def rule_r3(repo, run):
     # assumed rank
     ar = gm.func("GenFunctions.process_assumed_rank")
     s = gm.seg(ar)
-    run.check(R, "generate.GenFunctions.process_assumed_rank:suffix", 'function_suffix="_{}d".format(rank)' in s and
-              "for rank in range(" in s, "assumed-rank variants must be suffixed with the loop's rank", gm.loc(ar))
+    ok = False
+    for lp in ast.walk(ar):
+        if isinstance(lp, ast.For) and isinstance(lp.target, ast.Name) and isinstance(lp.iter, ast.Call) \
+                and pyflow.is_name(lp.iter.func, "range"):
+            for kw in [k for c in ast.walk(lp) if isinstance(c, ast.Call) for k in c.keywords]:
+                if kw.arg == "function_suffix" and pat.match(pat.parse("'_{}d'.format(%s)" % lp.target.id)[1], kw.value, {}):
+                    ok = True
+    run.check(R, "generate.GenFunctions.process_assumed_rank:suffix", ok,
+              "assumed-rank variants must be suffixed with the loop's rank", gm.loc(ar))
     # default arguments: suffix indexed by the running count of defaults
     hd = gm.func("GenFunctions.has_default_args")
     s = gm.seg(hd)
